@@ -974,6 +974,18 @@ def m_vec_dedup(ex, site, a):
     v.items[:] = out; return unit()
 
 
+@model('Vec::dedup_by', 'Vec::dedup_by_key')
+def m_vec_dedup_by(ex, site, a):
+    v = the_vec(ex, a[0]); out = []; f = a[1]
+    for x in v.items:
+        if out:
+            if site.method == 'dedup_by': same = ex.call_value(f, [Ptr(Cell(x)), Ptr(Cell(out[-1]))])     # same_bucket(current, previous kept)
+            else: same = values_eq(ex, ex.call_value(f, [Ptr(Cell(x))]), ex.call_value(f, [Ptr(Cell(out[-1]))]))
+            if (same if isinstance(same, bool) else ex.branch(same)): continue
+        out.append(x)
+    v.items[:] = out; return unit()
+
+
 def sort_items(ex, items, cmpf):
     """insertion sort with forking comparisons (stable)"""
     out = []
